@@ -11,17 +11,17 @@ NA = {
 }
 PENDING = "checker not built yet in this round (see DESIGN.md section 9 build order)"
 TECH = {
- "C02": "static analysis: MIR def-use / taint rules on the twiddle generators (f64-only angle computation, integer mod before the chirp, no twiddle recurrence)",
- "C03": "static analysis: entry/validation discipline, interval analysis of fixed-size kernel indices, SIMD primitive width table, available-facts dataflow for CPU-feature and TypeId gates (rustc_private MIR driver)",
- "C04": "static analysis: switch-table extraction and cross-checking of planner tables, direction def-use, zero-length guards",
+ "C02": "static analysis: MIR def-use / taint rules on the twiddle generators (f64-only angle computation, integer mod before the chirp, no twiddle recurrence), zero-count lints with positive controls (no iterator reduction of element values, no f32-to-f64 widening, from_f64 of constants only)",
+ "C03": "static analysis: entry/validation discipline, interval analysis of fixed-size kernel indices, symbolic (polynomial, quotient/remainder identities, per-instantiation) bounds of run-time-length kernel indices with concrete-witness refutation, SIMD primitive width table, available-facts dataflow for CPU-feature and TypeId gates (rustc_private MIR driver)",
+ "C04": "static analysis: switch-table extraction and cross-checking of planner tables, direction def-use incl. wrapper delegation, zero-length guards, cache-splice idiom check, guard-constant vs butterfly-table vs Rader/Bluestein routing check for the *Small recipes",
  "C05": "static analysis: who-may-call + interval bound on every Dft::new call site (clause 2 only)",
- "C06": "static analysis: cache accessor table agreement, direction provenance (def-use) through every constructor",
- "C08": "static analysis: def-use provenance of scratch through kernels and constructors (which inner transform receives which part of the scratch, which requirement each advertised-length formula consults), must-pass-through dominance check of the Bluestein zero fill, validator trim (path-must dataflow)",
+ "C06": "static analysis: cache accessor table agreement, direction provenance (def-use) through every constructor, constant-precision lints (from_f64/from_usize only, no f32 widening)",
+ "C08": "static analysis: def-use provenance of scratch through kernels and constructors (which inner transform receives which part of the scratch, which requirement each advertised-length formula consults), must-pass-through dominance check and extent of the Bluestein zero fill, validator trim (path-must dataflow), symbolic comparison of each scratch hand-off with the inner requirement using guarded constructor formulas (case-split polynomial inequalities, concrete-witness refutation)",
  "C09": "static analysis: path-must dataflow over validator CFGs, def-use provenance of entry-point arguments, error-sink reachability",
  "C10": "static analysis: cache-key provenance, nondeterminism-source lint over planner-reachable code",
  "C11": "static analysis: deep type walk + MIR cast/call lints (rustc_private driver) + compile-time auto-trait witness with compile-fail twins",
  "C13": "static analysis: available-facts (CPU feature) dataflow over the call graph under all four cargo feature sets",
- "C14": "static analysis: TypeId-gate dataflow + type-level witness (minimal non-float element type) checked by rustc",
+ "C14": "static analysis: TypeId-gate dataflow + type-level witness (minimal non-float element type) checked by rustc + whitelist of operations applied to the generic element type (ring ops, from_f64/from_usize, no raw-byte construction)",
  "C15": "static analysis: ownership/mutability lint over MIR casts and calls + trait-impl inventory",
  "C16": "static analysis: type-level witness crate (compile-pass + compile-fail twins) and public-surface inventory from the resolved module tree",
 }
